@@ -173,10 +173,12 @@ def rand_frame(r, n=None):
 def rand_small_matrix(r, singular_ok=True):
     """Small dyadic matrix, not necessarily invertible."""
     if singular_ok and r.random() < 0.15:
-        M = [F(r.choice([0, 1, -1, 2, F(1, 2)])) for _ in range(12)]
-        if r.random() < 0.5:
-            M[4:7] = M[0:3]      # two equal rows of the linear part → singular
-        return M
+        while True:
+            M = [F(r.choice([0, 1, -1, 2, F(1, 2)])) for _ in range(12)]
+            if r.random() < 0.5:
+                M[4:7] = M[0:3]      # two equal rows of the linear part → singular
+            if m_det(M) != 0 or M[4:7] == M[0:3]:
+                return M             # (singular only by construction, so that LAPACK meets an exact zero pivot)
     return rand_frame(r)
 
 
@@ -264,8 +266,7 @@ def build_registry(case):
     for rg in case['regs']:
         M = [F(x) for x in rg['mat']]
         tr = make_transform(rg['tk'], M)
-        reg.register_transform(tr, names[rg['s']], names[rg['t']] if rg['kind'] == 'bridging' or rg['t'] is not None else None,
-                               rg['kind'], weight=wnum(rg['w']), skip_existing=False)
+        reg.register_transform(tr, names[rg['s']], names[rg['t']], rg['kind'], weight=wnum(rg['w']), skip_existing=False)
         objs.append((tr, M))
     return reg, objs
 
@@ -275,8 +276,8 @@ def regs_payload(reg, idx, objs):
     uid2tid = {o._vuid: i for i, (o, _) in enumerate(objs)}
     out = []
     for t in reg.transforms:
-        out.append(f"{idx[t.source]},{idx.get(t.target, 0) if t.type == 'bridging' else idx.get(t.target, 0)},"
-                   f"{uid2tid[t.transform._vuid]},{'b' if t.type == 'bridging' else 'm'},{1 if t.invertible else 0},{fs(F(t.weight))}")
+        out.append(f"{idx[t.source]},{idx[t.target]},{uid2tid[t.transform._vuid]},{'b' if t.type == 'bridging' else 'm'},"
+                   f"{1 if t.invertible else 0},{fs(F(t.weight))}")
     return ';'.join(out)
 
 
@@ -338,6 +339,14 @@ def make_points(case, Fs):
     elif dt == 'frame':
         return pd.DataFrame(arr, columns=['x', 'y', 'z'])
     return arr
+
+
+def same_input(before, pts):
+    if isinstance(pts, pd.DataFrame):
+        return bool(before.equals(pts))
+    if isinstance(pts, list):
+        return repr(before) == repr(pts)
+    return bool(np.array_equal(before, pts, equal_nan=True)) and before.dtype == pts.dtype
 
 
 def pts_array(p):
@@ -433,9 +442,7 @@ def case_bridge(ctx, case):
             xerr = None
         except Exception as e:
             out, xerr = None, err_kind(e)
-    same_in = (before.equals(pts) if isinstance(pts, pd.DataFrame) else
-               (before == pts if isinstance(pts, list) else np.array_equal(before, pts, equal_nan=True)))
-    ctx.oracle(bool(same_in) or isinstance(pts, list) and repr(before) == repr(pts), 'xform_brain modified its input array', case)
+    ctx.oracle(same_input(before, pts), 'xform_brain modified its input array', case)
     if path is None:
         ctx.oracle(xerr == impl, f'xform_brain outcome {xerr or "success"} differs from find_bridging_path outcome {impl}', case)
         return
@@ -642,8 +649,7 @@ def case_seq(ctx, case):
     arr = make_rows(case)
     before = copy.deepcopy(arr)
     out = seq.xform(arr)
-    same = before == arr if isinstance(arr, list) else np.array_equal(before, arr, equal_nan=True)
-    ctx.oracle(bool(same), 'TransformSequence.xform modified its input', case)
+    ctx.oracle(same_input(before, arr), 'TransformSequence.xform modified its input', case)
     b64 = np.asarray(before, dtype=np.float64).reshape(-1, 3)
     model = ctx.ask(f"c08.seq {';'.join(member_tok(m) for m in members)} | {rows_str(b64)}")
     ctx.corr(rows_str(out), model, 'TransformSequence.xform rows (members in order, NaN rows skipped)', case)
@@ -719,6 +725,8 @@ def case_affine(ctx, case):
         last = [float(v) for v in N.matrix[3]]
     except np.linalg.LinAlgError:
         N, impl_neg, last = None, 'singular', None
+    if (negm == 'singular') != bool(case.get('singular')):
+        raise AssertionError('generator bug: singular flag')
     if negm == 'singular' or case.get('exact_inv'):
         ctx.corr(impl_neg, negm, 'matrix of -AffineTransform (np.linalg.inv) vs adjugate/det', case)
     if N is not None and case.get('exact_inv'):
@@ -762,7 +770,7 @@ def gen_affine(r):
             continue
         break
     pts = [[fs(F(r.randint(-32, 32), r.choice([1, 2, 4]))) for _ in range(3)] for _ in range(r.choice([1, 2, 4]))]
-    return dict(mat=[fs(x) for x in M], pts=pts, exact_inv=exact)
+    return dict(mat=[fs(x) for x in M], pts=pts, exact_inv=exact, singular=m_det(M) == 0)
 
 
 # ---------------------------------------------------------------------------------------------
@@ -772,18 +780,22 @@ def case_cache(ctx, case):
     names = case['names']
     idx = {n: i for i, n in enumerate(names)}
     reg = TT.TemplateRegistry(scan_paths=False)
-    objs = []          # (transform, tid)
-    funcs = {}
+    funcs, tids = {}, {}
     ops_tok, impl = [], []
     for op in case['ops']:
         if op['op'] == 'R':
             M = [F(x) for x in op['mat']]
             if op['tk'] == 'func':
-                f = funcs.setdefault(op['tid'], make_func(M))
+                f = funcs.setdefault(op['fid'], make_func(M))
                 tr = make_transform('func', M, func=f)
+                key = ('func', op['fid'])        # FunctionTransform.__eq__: same function object
+            elif op['tk'] == 'affine':
+                tr = make_transform('affine', M)
+                key = ('affine', tuple(op['mat']))   # AffineTransform.__eq__: equal matrices
             else:
-                tr = make_transform(op['tk'], M)
-            objs.append((tr, op['tid']))
+                tr = make_transform('alias', M)
+                key = ('alias', len(tids))       # AliasTransform.__eq__ never returns True
+            op = dict(op, tid=tids.setdefault(key, len(tids)))
             reg.register_transform(tr, names[op['s']], names[op['t']], op['kind'], skip_existing=op['skip'], weight=wnum(op['w']))
             inv = 1 if op['tk'] in ('affine', 'alias') else 0
             ops_tok.append(f"R:{op['s']},{op['t']},{op['tid']},{'b' if op['kind'] == 'bridging' else 'm'},{inv},{op['w']},{1 if op['skip'] else 0}")
@@ -827,9 +839,8 @@ def gen_cache(r):
             if pool and r.random() < 0.35:
                 op = dict(r.choice(pool))
                 op['skip'] = r.random() < 0.8
-                if op['tk'] == 'alias':
-                    ntid[0] += 1
-                    op['tid'] = ntid[0]          # AliasTransform.__eq__ is never True
+                if r.random() < 0.2:
+                    op['w'] = fs(r.choice([1, 2, 3]))
             else:
                 a, b = r.sample(range(n), 2)
                 tk = r.choice(['affine', 'affine', 'func', 'alias'])
@@ -839,7 +850,7 @@ def gen_cache(r):
                         break
                 ntid[0] += 1
                 op = dict(op='R', s=a, t=b, tk=tk, kind=r.choice(['bridging'] * 5 + ['mirror']), w=fs(r.choice([1, 2, F(1, 2)])),
-                          mat=[fs(x) for x in (ID12 if tk == 'alias' else M)], tid=ntid[0], skip=r.random() < 0.8)
+                          mat=[fs(x) for x in (ID12 if tk == 'alias' else M)], fid=ntid[0], skip=r.random() < 0.8)
                 pool.append(op)
             ops.append(op)
             last_reg = op
@@ -877,8 +888,10 @@ def case_sbs(ctx, case):
     # what the legs should be (model, reciprocal = 1/2)
     leg_ok = True
     for a, b in zip(waypoints[:-1], waypoints[1:]):
+        # node checks of find_bridging_path (no registrations / unknown template) come first
+        pre = ctx.ask(f'c08.find w 1/2 | {regs} | {idx[a]},{idx[b]} |  |  | {idx[a]} | ')
         chk = ctx.ask(f'c08.check 1/2 | {regs} | {idx[a]},{idx[b]} |  |  | {idx[a]}').split()
-        if chk[1] == '0':
+        if pre.startswith('ERR') or chk[1] == '0':
             leg_ok = False
     ctx.count('sbs_outcome', err or 'ok')
     if err is not None:
